@@ -103,6 +103,12 @@ def gen_case(r, k, same=None, long_=False):
             icnt = [r.choice([0, 0, 1, 2, 3, 5, 8]) for _ in range(nt)]
             c["input"].append({"cnt": icnt, "grad": [(V.dyadic(r, -4, 4, bits=2) if icnt[a] > 0 else 0.0) for a in range(nt) for _ in range(nd)]})
     # applyBias switched at run time (cv bias a set apply_force 0|1) before some steps
+    # colvarbias_abf::init: fullSamples <= 1 means fullSamples 1 and minSamples 0, whatever minSamples says
+    if full == 1 and r.random() < 0.5:
+        c["full_cfg"], c["min_cfg"] = r.choice([0, 1]), r.choice([0, 2, 7])      # (negative values: size_t parsing, C10)
+    # stepZeroData written in the configuration of a bias with lagged total forces: the feature is excluded by
+    # f_cvb_get_total_force there (colvarbias.cpp) and has no effect: the model runs with c_szd = false (wf_cfg)
+    c["szd_cfg"] = c["szd"] or ((not same) and r.random() < 0.2)
     c["toggle"] = r.random() < 0.2
     # timeStepFactor k > 1 on the bias and its variables (only allowed with same-step total forces): they are
     # awake at the steps that are multiples of k (model: abf_mstep).  No restraint (its own timeStepFactor would be 1)
@@ -350,11 +356,11 @@ def config_lines(c, part="all"):
             L += ["    period %s" % fmt(v["P"]), "    wrapAround %s" % fmt(v["c"])]
         L += ["  }", "}"]
     abf = ["abf {", "  name a", "  colvars " + " ".join("v%d" % d for d in range(nd)),
-           "  fullSamples %d" % c["full"], "  minSamples %d" % c["min"],
+           "  fullSamples %d" % c.get("full_cfg", c["full"]), "  minSamples %d" % c.get("min_cfg", c["min"]),
            "  applyBias %s" % ("on" if c["apply"] else "off"), "  updateBias %s" % ("on" if c["update"] else "off")]
     if c["cap"]:
         abf += ["  maxForce " + " ".join(fmt(m) for m in c["maxf"])]
-    if c["szd"]:
+    if c.get("szd_cfg", c["szd"]):
         abf += ["  stepZeroData on"]
     if c.get("tsf", 1) > 1:
         abf += ["  timeStepFactor %d" % c["tsf"]]
@@ -1330,6 +1336,7 @@ def check(run):
     d = V.scratch("C04")
 
     run_witnesses(run, unit, model, d)
+    run_rejections(run, unit, d)
 
     n = 320 if quick else 20000
     cases = []
@@ -1413,6 +1420,31 @@ def check(run):
         if k < 2:
             run.sample({"scenario": scenario(c)[:60], "final": steps_i[-1] if steps_i else None, "state": im.get("state")})
     run.cov["correspondence"].update({"scenarios": len(cases), "steps": sum(len(c["steps"]) for c in cases), "state_files_checked": nstate})
+
+
+def run_rejections(run, unit, d):
+    """configurations that colvarbias_abf::init must refuse (malformed stream): minSamples >= fullSamples, an abf without
+    variables, stepZeroData with lagged total forces"""
+    base = _c1("R", _v1(), [(0.5, 1.0, False)], full=2, min=1, apply=True)
+    bad = []
+    for name, kw, repl in (("min-ge-full", {"full": 3, "min": 3}, None), ("min-gt-full", {"full": 2, "min": 5}, None),
+                           ("no-colvars", {}, ("  colvars v0", "  colvars"))):
+        c = dict(base)
+        c.update(kw)
+        c["id"] = "R_" + name
+        L = scenario(c)
+        if repl:
+            L = [(repl[1] if l == repl[0] else l) for l in L]
+        sc = os.path.join(d, "rej_%s.scn" % name)
+        with open(sc, "w") as f:
+            f.write("\n".join(L) + "\n")
+        rc, o, e = V.sh([unit, sc], cwd=d, timeout=120)
+        cfg = [l for l in o.split("\n") if l.startswith("CONFIG")]
+        run.count(c["id"], True)
+        run.dist("rejected_configurations")
+        if rc != 0 or not cfg or "err=ok" in cfg[0]:
+            run.violation("config:accepted-" + name, "abf configuration %s must be refused by colvarbias_abf::init, the implementation answered %s (rc=%d)"
+                          % (name, cfg[:1], rc), {"kind": "scenario", "lines": L})
 
 
 def run_witnesses(run, unit, model, d):
